@@ -20,6 +20,9 @@ WAVELENGTH = "self.wavelength"
 SYM = re.compile(r"^(C|phi)([1-9])([0-9])$")
 
 
+_WEIGHTS_ATOM = re.compile(r"^\(1\*(?:[A-Za-z_][\w.]*\.)?_unpack_distributions\(.*\)\)#1$")
+
+
 def expected_symbols(max_order: int = 5) -> set[str]:
     out = set()
     for n in range(1, max_order + 1):
@@ -398,6 +401,8 @@ def run(ctx) -> None:
                 p = nz.norm(call.args[0])
                 ce.append(p)
                 return Poly.atom("⟦phase-factor⟧")
+            if last_attr(call) == "asnumpy" and len(call.args) == 1 and not call.keywords:
+                return nz.norm(call.args[0])  # device -> host transport of the same values
             return None
 
         def policy(st, env):
@@ -414,6 +419,16 @@ def run(ctx) -> None:
     ctx.require(len(distinct) == 1, f"{ab.qualname}: expected exactly one complex_exponential(...) of one phase, found "
                                     f"{len(distinct)}")
     phase = next(iter(distinct.values()))
+    # the ensemble weights (second element of the pair returned by _unpack_distributions) belong onto the phase
+    # factor, not into the phase: exp(-i w (2 pi/lambda) chi) is another function than w exp(-i (2 pi/lambda) chi)
+    wat = sorted(a for a in phase.atoms() if _WEIGHTS_ATOM.match(a))
+    if wat:
+        ctx.violation("R-NAMING", f"{ab.qualname}:phase", ab.where,
+                      "the argument of complex_exponential contains the ensemble weights returned by "
+                      "_unpack_distributions: for a coefficient distribution with non-unit weights member i evaluates "
+                      "exp(-i w_i (2 pi/wavelength) chi) instead of (w_i times) exp(-i (2 pi/wavelength) chi)",
+                      key_detail="weights-in-phase")
+        phase = phase.subst({a: Poly.const(1) for a in wat})
     found_syms: dict[str, int] = {}
     for mono, coef in sorted(phase.terms.items(), key=lambda kv: str(kv[0])):
         d = decompose(mono, coef, sx.trig, alpha)
